@@ -1115,6 +1115,27 @@ def progress_script(r, idx, fate_vec=None, drops_only=None):
     return {"cfg": cfg, "steps": steps, "tag": {"family": "progress", "idx": idx, "budget_s": budget}}
 
 
+def progress_manystreams(r, idx):
+    """Many short streams opened one after the other under a stream-count limit of one or two: every
+    completed stream has to earn the credit for the next one, dozens of times in a row, also when
+    some of the MAX_STREAMS frames are lost."""
+    lim = r.choice([1, 1, 2, 3])
+    d = 1          # unidirectional: a stream is over when its one direction is (nobody answers here)
+    writer = r.choice([0, 1])
+    peer = {"idle_ms": 0, "max_bidi": lim if d == 0 else 100, "max_uni": lim if d == 1 else 100}
+    me = {"idle_ms": 0}
+    cfg = base_cfg(r, server=(me if writer == 0 else peer), client=(me if writer == 1 else peer))
+    if r.random() < 0.5:
+        cfg["fates_c2s"] = ["ok"] * 8 + fates(r, 30, 0.2)
+        cfg["fates_s2c"] = ["ok"] * 8 + fates(r, 30, 0.2)
+    n = r.choice([10, 20, 40]) * lim
+    streams = [{"dir": d, "size": r.choice([1, 10, 300]), "chunk": 1 << 20, "finish": True} for _ in range(n)]
+    steps = [{"do": "connect", "n": 1}, {"do": "run_until", "what": "connected", "max_us": 20000000},
+             {"do": "app", "n": writer, "c": 0, "streams": streams, "read_max": 1 << 20, "ordered": True, "maxsize": 300},
+             {"do": "run_until", "what": "apps", "max_us": 120000000}]
+    return {"cfg": cfg, "steps": steps, "tag": {"family": "progress", "idx": idx, "budget_s": 120}}
+
+
 # ------------------------------------------------------------------------------------------------
 # C03 / C06
 
